@@ -18,7 +18,7 @@ def run(tier):
     for k in range(nscen):
         sub = os.path.join(ws, "sc%d" % k)
         os.makedirs(sub)
-        names = _c09.make_scen(sub, vlib.rng("c10-scen-%d" % k), 1 if tier == "quick" else 2)
+        names = _c09.make_scen(sub, vlib.rng("c10-scen-%d" % k), 3 if tier == "quick" else 4)
         fam[k] = dict(names)
 
     def one(k):
